@@ -115,6 +115,39 @@ def run(ctx):
     ctx.check(ok, "C09.2", "Error::id:table", "every error but CompletelyBusted yields Some(its id)", "Error::id table: %s" % arms, ei.loc())
 
     # ---------------------------------------------------------------- C09.3
+    # "unknown type or class" means exactly the catch-all variants: a query type is unknown iff it is Record(Unknown(_)), ANY /
+    # AXFR / MAILA / MAILB are known; same for classes
+    for ty, inner in (("QueryType", "RecordType"), ("QueryClass", "RecordClass")):
+        qf = prog.fn(T + ty + "::is_unknown")
+        qr = A.Resolver(qf)
+        qc_ = A.Conds(qf, qr)
+        vs = [v["name"] for v in prog.adt(T + ty)["variants"]]
+        tab = {}
+        for b, e in A.return_exprs(qf, qr):
+            pe = A.peel(e)
+            if pe[0] == "const":
+                val = pe[2]
+            elif pe[0] == "call" and pe[1] == T + inner + "::is_unknown" and A.path_str(pe[2][0]) in ("param1.<Record>.0",):
+                val = "inner"
+            else:
+                val = A.show(pe)[:50]
+            for v in A.possible_variants(qf, qc_, lambda x: A.peel(x) == ("param", 1) or A.path_str(x) == "param1", vs, b):
+                tab[v] = val
+        want_t = {v: False for v in vs}
+        want_t["Record"] = "inner"
+        ctx.check(tab == want_t, "C09.3", "%s::is_unknown:table" % ty, "Record(t) -> t.is_unknown(); every other query %s is known" % ("type" if "Type" in ty else "class"),
+                  "%s::is_unknown table is %s" % (ty, tab), qf.loc())
+        rf = prog.fn(T + inner + "::is_unknown")
+        rr_ = A.Resolver(rf)
+        rc_ = A.Conds(rf, rr_)
+        rvs = [v["name"] for v in prog.adt(T + inner)["variants"]]
+        rtab = {}
+        for b, e in A.return_exprs(rf, rr_):
+            pe = A.peel(e)
+            for v in A.possible_variants(rf, rc_, lambda x: A.peel(x) == ("param", 1) or A.path_str(x) == "param1", rvs, b):
+                rtab[v] = pe[2] if pe[0] == "const" else A.show(pe)[:40]
+        ctx.check(rtab == {v: (v == "Unknown") for v in rvs}, "C09.3", "%s::is_unknown:table" % inner, "unknown exactly for the Unknown(_) variant",
+                  "%s::is_unknown is true for %s" % (inner, sorted(v for v, x in rtab.items() if x is not False)), rf.loc())
     tg = prog.fn("resolved::triage")
     tr = A.Resolver(tg)
     tc = A.Conds(tg, tr)
@@ -351,6 +384,25 @@ def run(ctx):
         none = [b for b in oks if b in f.reachable(0, removed_blocks=[sb for sb, _ in sends])]
         ctx.check(not again and not none and bool(oks), "C09.5", name + ":one-send-per-path", "exactly one datagram on every successful path",
                   "sends after a send: %s; Ok without a send: %s" % ([f.loc(x[1]) for x in again], [f.loc(x) for x in none]), f.loc())
+
+    # the transport layer touches nothing of a serialised reply but the TC bit: every store into the message is to octet 2
+    # and either sets bit 1 (`|= 0x02`) or clears it (`&= 0xFD`) - the ID, the other flags and the body go out as built
+    for name in ("send_udp_bytes", "send_udp_bytes_to", "send_tcp_bytes"):
+        f = prog.body_of(NET + name)
+        r = A.Resolver(f)
+        n_st = 0
+        for b, i, st in f.assigns():
+            d = st["dst"]
+            if not (d.get("p") and any(isinstance(x, dict) and ("index" in x or "cindex" in x) for x in d["p"])):
+                continue
+            n_st += 1
+            el = [x for x in d["p"] if isinstance(x, dict) and ("index" in x or "cindex" in x)][0]
+            idx = A.peel(r.local(el["index"], (b, i))) if "index" in el else ("const", "usize", el["cindex"], None)
+            v = A.peel(r.rvalue(st["rv"], (b, i)))
+            okv = v[0] == "bin" and ((v[1] == "BitOr" and A.peel(v[3])[2] == 0x02) or (v[1] == "BitAnd" and A.peel(v[3])[2] == 0xFD))
+            ctx.check(idx[0] == "const" and idx[2] == 2 and okv, "C09.5", "%s:only-TC-touched#%d" % (name, n_st), "bytes[2] |= 0x02 or bytes[2] &= 0xFD",
+                      "the transport layer rewrites octet %s of the reply with %s" % (A.show(idx), A.show(v)[:60]), f.loc(b, i))
+        ctx.floor("C09.5", "TC updates in %s" % name, n_st, 2)
 
     # ---------------------------------------------------------------- C09.6
     st_ = prog.body_of(NET + "send_tcp_bytes")
